@@ -34,16 +34,21 @@ Record variant := mkV {
                   pool network; fixed: error, no answer *)
   d9 : bool;   (* the containment walk of Reserve* and the AAA pool override ignore the subscriber's VRF *)
   d8 : bool;   (* restore keeps an address of the persisted image although re-reserving it conflicted (only logged) *)
+  d10 : bool;  (* ReservePD treats an AAA prefix whose length differs from the pool's delegated length as "in no
+                  pool" (prefixToIndex), although it may cover, or lie inside, the pool network: it is accepted and
+                  the pool goes on delegating prefixes that overlap it.  Repaired: such a prefix is refused (and so is
+                  one that overlaps another subscriber's out-of-pool prefix) *)
   d6 : bool    (* component level only (used by the stage-B event mapping in ocaml/C02_run.ml, not by [step]):
                   a REQUEST that waited for AAA / session creation is ACKed by forwardPendingDHCPv4 /
                   forwardLatePendingPackets without handleAck, so the session does not record the address *)
 }.
-Definition Repaired : variant := mkV false false false false false false false false false.
+Definition Repaired : variant := mkV false false false false false false false false false false.
 (* the code at /repo HEAD.  Fixed there (flag off): constant fall-back d1 (24c9504), expiry take-over d3 (58e16d0),
    unresolved answer d4 (d5fadd1), pending ACK d6 (b04c868), nil pool d7 (d114f02).  Still present: unchecked release
-   d2, untracked out-of-pool statics d5, restore keeps a conflicting address d8, VRF-blind walk / override d9. *)
-Definition Head : variant := mkV false true false false true false true true false.
-Definition Defective : variant := mkV true true true true true true true true true.
+   d2, untracked out-of-pool statics d5, restore keeps a conflicting address d8, VRF-blind walk / override d9,
+   AAA prefix of another length overlapping a delegation pool d10. *)
+Definition Head : variant := mkV false true false false true false true true true false.
+Definition Defective : variant := mkV true true true true true true true true true true.
 Inductive fam := F4 | F6 | FD.
 Definition fam_eqb (a b : fam) : bool :=
   match a, b with F4, F4 | F6, F6 | FD, FD => true | _, _ => false end.
@@ -206,11 +211,35 @@ Definition reserve_in (r : reg) (p : pool) (x : item) (s : N) : reg * bool :=
                end
   | None => (r, true)
   end.
+(* the block of addresses a prefix stands for overlaps the network of a PD pool / another prefix *)
+Definition pfx_block (x : item) : N * N :=
+  let sz := 2 ^ (128 - snd x) in ((fst x / sz) * sz, sz).
+Definition pfx_overlaps_net (g : geom) (x : item) : bool :=
+  match g with
+  | GPfx base _ count shift =>
+      let (lo, sz) := pfx_block x in (lo <? base + count * 2 ^ shift) && (base <? lo + sz)
+  | GRange _ _ _ => false
+  end.
+Definition pfx_overlap (x y : item) : bool :=
+  let (lx, sx) := pfx_block x in let (ly, sy) := pfx_block y in (lx <? ly + sy) && (ly <? lx + sx).
+(* R10 (Repaired): an AAA prefix that is no delegation of any pool of the VRF but overlaps one of their networks,
+   or overlaps an out-of-pool prefix recorded for somebody else, is a conflict *)
+Definition pd_conflict (v : variant) (f : fam) (x : item) (vrf s : N) (r : reg) : bool :=
+  match f with
+  | FD => negb (d10 v) &&
+          (existsb (fun p => (d9 v || (p_vrf p =? vrf)) && pfx_overlaps_net (p_geom p) x) (fam_pools FD r) ||
+           existsb (fun e : skey * N => match e with
+                                        | ((FD, v', y), o) => (v' =? vrf) && negb (o =? s) && pfx_overlap x y
+                                        | _ => false
+                                        end) (statics r))
+  | _ => false
+  end.
 Definition reserve_cont (v : variant) (f : fam) (x : item) (vrf s : N) (r : reg) : list (reg * bool) :=
   (* R9 (Repaired): only pools of the subscriber's VRF are candidates *)
   match filter (fun p => contains p x && (d9 v || (p_vrf p =? vrf))) (fam_pools f r) with
   | [] =>
-      if d5 v then [(r, true)]
+      if pd_conflict v f x vrf s r then [(r, false)]
+      else if d5 v then [(r, true)]
       else match sassoc (f, vrf, x) (statics r) with
            | Some o => [(r, o =? s)]
            | None => [(mkReg (pools r) (((f, vrf, x), s) :: statics r), true)]
